@@ -12,7 +12,7 @@
 From Coq Require Import List Arith.
 Import ListNotations.
 From BC Require Import Conc.Lin Conc.StoreLTS Conc.StoreSafe Conc.StoreLin Conc.StoreLive.
-From BC Require Conc.MergeLTS Conc.MergeSafe.
+From BC Require Conc.MergeLTS Conc.MergeSafe Conc.RollLTS Conc.RollSafe.
 From Coq Require Import Lia.
 
 (* 1. No schedule makes any thread panic: whatever the interleaving and however the bytes of a record
@@ -77,6 +77,36 @@ Theorem C04_unguarded_reader_refuted :
 Proof. exact MergeSafe.unguarded_reader_fails. Qed.
 Print Assumptions C04_unguarded_reader_refuted.
 
+(* 8. Puts that replace the active file against gets, for every schedule (Conc/RollLTS.v: the writer
+      appends, may create the next file and make it the active one, and only then publishes; a reader
+      opens a file it has not touched, and renews a mapping that does not cover the record): no reader
+      finds a file missing or a record outside its mapping, every finished get holds the value of the
+      abstract map at its lookup, and every index entry points at an existing record. *)
+Theorem C04_rollover_vs_gets : forall es s, RollLTS.rrun true RollLTS.rinit es = Some s ->
+  (forall t, RollLTS.rreaders s t <> RollLTS.GFailed) /\
+  (forall t k v c, RollLTS.rreaders s t = RollLTS.GDone k v c -> v = c) /\
+  (forall k f p, RollLTS.ridx s k = Some (f, p) -> exists v, RollSafe.has (RollLTS.rfiles s) f p v).
+Proof. exact RollSafe.rollover_vs_gets. Qed.
+Print Assumptions C04_rollover_vs_gets.
+
+(* 9. In that model no step of a put waits for a reader: whatever the schedule did, the writer's next
+      step is enabled (the next file can always be created). *)
+Theorem C04_writer_never_blocked : forall es s, RollLTS.rrun true RollLTS.rinit es = Some s ->
+  match RollLTS.wstate s with
+  | RollLTS.WIdle => forall k v, RollLTS.rstep true s (RollLTS.WAppend k v) <> None
+  | RollLTS.WAppended _ _ => RollLTS.rstep true s RollLTS.WRoll <> None /\ RollLTS.rstep true s RollLTS.WPublish <> None
+  | RollLTS.WDone => RollLTS.rstep true s RollLTS.WReturn <> None
+  end.
+Proof. exact RollSafe.writer_never_blocked. Qed.
+Print Assumptions C04_writer_never_blocked.
+
+(* 10. ... and it is the renewal that does it: a reader that keeps the mapping it made fails on the record
+       of a later put (the shape of the seeded changes that drop the remap). *)
+Theorem C04_no_renewal_refuted :
+  exists s, RollLTS.rrun false RollLTS.rinit RollSafe.stale_schedule = Some s /\ RollLTS.rreaders s 0 = RollLTS.GFailed.
+Proof. exact RollSafe.no_renewal_fails. Qed.
+Print Assumptions C04_no_renewal_refuted.
+
 Example C04_example :
   exists s, lrun rule_fixed (linit 1) d3_schedule = Some s /\ thr s 1 = PGRead 150 (Some 20).
 Proof. exact fixed_rule_same_schedule. Qed.
@@ -96,3 +126,10 @@ Proof.
     destruct (Nat.eqb k 1); [|discriminate]. inversion H; subst. exists [MergeLTS.mkMRec 1 7]. cbn. split; [reflexivity|lia]. }
   exact MergeSafe.guarded_merge_waits.
 Qed.
+
+(* Non-vacuity of 8: a schedule with a rollover between append and publication, two readers, one of
+   them holding a mapping of the old file. *)
+Example C04_rollover_example :
+  exists s, RollLTS.rrun true RollLTS.rinit RollSafe.roll_schedule = Some s /\
+            RollLTS.rreaders s 0 = RollLTS.GDone 1 (Some 11) (Some 11) /\ RollLTS.rreaders s 1 = RollLTS.GDone 2 None None /\ RollLTS.ractive s = 1.
+Proof. exact RollSafe.roll_schedule_runs. Qed.
